@@ -13,6 +13,7 @@ import (
 	"reflect"
 	"sort"
 	"strings"
+	"unsafe"
 
 	"github.com/apparentlymart/go-textseg/v15/textseg"
 	"github.com/hashicorp/hcl/v2"
@@ -32,6 +33,7 @@ func init() {
 		return ""
 	}
 	extraIntrinsics["verifRealPos"] = intrRealPos
+	extraIntrinsics["verifImagePos"] = intrImagePos
 	extraIntrinsics["verifRealRange"] = intrRealRange
 	extraIntrinsics["verifFileLen"] = intrFileLen
 	extraIntrinsics["verifBound"] = intrBound
@@ -227,8 +229,12 @@ func intrStretch(in *interp, fr *frame, fn *ssa.Function, args []value) value {
 	// line slots: before each top-level item and at end of file
 	if nslots > 0 {
 		var starts []int
+		eofSlot := true
 		if !isJSON {
-			if f, _ := hclsyntax.ParseConfig([]byte(src), name, hcl.InitialPos); f != nil {
+			if f, diags := hclsyntax.ParseConfig([]byte(src), name, hcl.InitialPos); f != nil {
+				// on a file with syntax errors the parser's recovery ranges extend to the
+				// end of the file: lines appended there are not "after the last item"
+				eofSlot = !diags.HasErrors()
 				if body, ok := f.Body.(*hclsyntax.Body); ok {
 					for _, a := range body.Attributes {
 						starts = append(starts, a.SrcRange.Start.Byte)
@@ -239,7 +245,9 @@ func intrStretch(in *interp, fr *frame, fn *ssa.Function, args []value) value {
 				}
 			}
 		}
-		starts = append(starts, len(src))
+		if eofSlot {
+			starts = append(starts, len(src))
+		}
 		sort.Ints(starts)
 		for _, s := range starts {
 			// only line starts qualify
@@ -258,20 +266,45 @@ func intrStretch(in *interp, fr *frame, fn *ssa.Function, args []value) value {
 			if len(st.slots) >= nslots {
 				break
 			}
-			idx := len(st.slots)
-			sl := lineSlot{at: s, line: ls}
-			sl.k = p.newVar(fmt.Sprintf("%sslot%d.lines", tag, idx), sInt)
-			p.assume(tAnd(tCmp(">=", sl.k, mkInt(0)), tCmp("<=", sl.k, mkInt(2))))
-			sl.text = p.newVar(fmt.Sprintf("%sslot%d.text", tag, idx), sStr)
-			sl.bytes = tLen(sl.text)
-			// k lines, each blank or a '#' comment, each terminated by \n
-			line := "(re.++ (re.union (re.* " + reClass(" \\t") + ") (re.++ (str.to_re \"#\") (re.* (re.diff " + reAnyByte + " (str.to_re \"\\u{a}\"))))) (str.to_re \"\\u{a}\"))"
-			p.assume(tOr(
-				tAnd(tEq(sl.k, mkInt(0)), tEq(sl.text, mkStr(""))),
-				tAnd(tEq(sl.k, mkInt(1)), tInRe(sl.text, line)),
-				tAnd(tEq(sl.k, mkInt(2)), tInRe(sl.text, "(re.++ "+line+" "+line+")"))))
-			p.assume(tCmp("<=", sl.bytes, mkInt(24)))
+			sl := lineSlot{at: s, line: ls, k: mkInt(0), bytes: mkInt(0), text: mkStr("")}
 			st.slots = append(st.slots, sl)
+		}
+	}
+	// at most one slot receives inserted lines per path: none, one blank line,
+	// one comment line, or a comment line followed by a blank line
+	if len(st.slots) > 0 {
+		c := p.choose(1+3*len(st.slots), "slot-variant")
+		p.choices[p.freshName("choice:slot-variant")] = c
+		if c > 0 {
+			si, variant := (c-1)/3, (c-1)%3
+			sl := &st.slots[si]
+			blank := func(n string) *term {
+				v := p.newVar(fmt.Sprintf("%sslot%d.%s", tag, si, n), sStr)
+				p.assume(tCmp("<=", tLen(v), mkInt(4)))
+				p.assume(tInRe(v, `(re.* (str.to_re " "))`))
+				in.uniformVars()[v.s] = ' '
+				return v
+			}
+			comment := func(n string) *term {
+				v := p.newVar(fmt.Sprintf("%sslot%d.%s", tag, si, n), sStr)
+				p.assume(tCmp("<=", tLen(v), mkInt(6)))
+				p.assume(tInRe(v, "(re.* (re.diff "+reAnyByte+" (str.to_re \"\\u{a}\")))"))
+				return v
+			}
+			var parts []*term
+			switch variant {
+			case 0:
+				parts = []*term{blank("b0"), mkStr("\n")}
+				sl.k = mkInt(1)
+			case 1:
+				parts = []*term{mkStr("#"), comment("c0"), mkStr("\n")}
+				sl.k = mkInt(1)
+			case 2:
+				parts = []*term{mkStr("#"), comment("c0"), mkStr("\n"), blank("b1"), mkStr("\n")}
+				sl.k = mkInt(2)
+			}
+			sl.text = tConcat(parts...)
+			sl.bytes = tLen(sl.text)
 		}
 	}
 	// file content
@@ -386,6 +419,32 @@ func (in *interp) stretchHook(m *marsh, rv reflect.Value, T types.Type) (value, 
 		}
 		return nil, false
 	}
+	if n.Obj().Pkg() != nil && n.Obj().Pkg().Path() == "github.com/hashicorp/hcl/v2/hclsyntax" && n.Obj().Name() == "Body" && rv.Kind() == reflect.Struct {
+		// the top-level body spans the whole file: its start does not move when
+		// lines are inserted before the first item
+		u := n.Underlying().(*types.Struct)
+		if !rv.CanAddr() {
+			tmp := reflect.New(rv.Type()).Elem()
+			tmp.Set(rv)
+			rv = tmp
+		}
+		out := make(structure, u.NumFields())
+		for i := 0; i < u.NumFields(); i++ {
+			f := rv.Field(i)
+			if !f.CanInterface() {
+				f = reflect.NewAt(f.Type(), unsafe.Pointer(f.UnsafeAddr())).Elem()
+			}
+			if u.Field(i).Name() == "SrcRange" {
+				r := f.Interface().(hcl.Range)
+				if st := in.stretchStates()[r.Filename]; st != nil && r.Start.Byte == 0 && r.End.Byte == len(st.src) && len(st.src) > 0 {
+					out[i] = structure{r.Filename, structure{r.Start.Line, r.Start.Column, r.Start.Byte}, in.stretchPosE(st, r.End, true)}
+					continue
+				}
+			}
+			out[i] = m.fromNative(f, u.Field(i).Type())
+		}
+		return out, true
+	}
 	if n.Obj().Pkg() == nil || n.Obj().Pkg().Path() != "github.com/hashicorp/hcl/v2" {
 		return nil, false
 	}
@@ -429,7 +488,18 @@ func (in *interp) stretchPosE(st *stretchState, p hcl.Pos, isEnd bool) value {
 				return in.posValue(tAdd(l, mkInt(int64(dl))), mkInt(int64(p.Column)), tAdd(b, mkInt(int64(p.Byte-t.Range.Start.Byte))))
 			}
 		}
-		panic(unsupported(fmt.Sprintf("A-BOUNDARY: seed position %d is inside a blank run", p.Byte)))
+		// inside a blank run: extra blanks are inserted at the end of the run, so the
+		// position keeps its distance from the start of the run
+		start := p.Byte
+		for start > 0 && (st.src[start-1] == ' ' || st.src[start-1] == '\t') {
+			start--
+		}
+		if start < p.Byte {
+			sp := hcl.Pos{Line: p.Line, Column: p.Column - (p.Byte - start), Byte: start}
+			l, c, b := st.imageE(sp, false)
+			return in.posValue(l, tAdd(c, mkInt(int64(p.Byte-start))), tAdd(b, mkInt(int64(p.Byte-start))))
+		}
+		panic(unsupported(fmt.Sprintf("A-BOUNDARY: seed position %d is neither on a token boundary nor inside a token or blank run", p.Byte)))
 	}
 	return in.posValue(st.imageE(p, isEnd))
 }
@@ -681,4 +751,17 @@ func stubLexConfig(in *interp, fr *frame, fn *ssa.Function, args []value) value 
 		panic(unsupported("LexConfig native call"))
 	}
 	return r
+}
+
+// verifImagePos(filename string, seedPos hcl.Pos, isEnd bool) hcl.Pos: the
+// stretched image of a concrete position of the seed text.
+func intrImagePos(in *interp, fr *frame, fn *ssa.Function, args []value) value {
+	st := in.stretchByName(args[0])
+	ps := args[1].(structure)
+	if isSym(ps[0]) || isSym(ps[1]) || isSym(ps[2]) {
+		panic(unsupported("verifImagePos of a symbolic position"))
+	}
+	p := hcl.Pos{Line: int(asInt64(ps[0])), Column: int(asInt64(ps[1])), Byte: int(asInt64(ps[2]))}
+	isEnd, _ := args[2].(bool)
+	return in.stretchPosE(st, p, isEnd)
 }
